@@ -12,7 +12,7 @@ from repid.message import MessageCategory
 
 from ..explore import Acc, digest
 from ..harness import Exec
-from ..vloop import NS
+from ..vloop import CLOCK, NS
 
 ID = "C15"
 LEVEL = "model_checking"
@@ -32,6 +32,9 @@ PATTERNS = {"own": lambda i: "o", "alt": lambda i: "of"[i % 2], "foreign-first":
 for _j in (8, 9, 10, 11, 18, 19, 20, 21):
     PATTERNS[f"f{_j}"] = (lambda j: (lambda i: "f" if i < j else "o"))(_j)
 CONSUME_BUDGET = 1.5
+# priority of the i-th enqueued message; "redis order" = which priority Redis looks at first
+PRIOS = {None: lambda i: 9, "p2": lambda i: (5, 9)[i % 2], "p3": lambda i: (0, 9, 5)[i % 3], "p3r": lambda i: (9, 5, 0, 0, 5, 9)[i % 6]}
+REDIS_ORDERS = {"high-first": 0.0, "medium-first": 0.8, "low-first": 0.99}
 
 
 class Fifo:
@@ -47,8 +50,13 @@ class Fifo:
         mid = f"m{self.n}"
         self.n += 1
         self.seq += 1
-        self.waiting.append(dict(id=mid, topic=topic, orig=self.seq, ret=None))
+        self.waiting.append(dict(id=mid, topic=topic, orig=self.seq, ret=None, prio=self.prio_of(self.n - 1)))
         return mid
+
+    prio_of = staticmethod(lambda i: 9)
+
+    def prio(self, mid):
+        return next(m["prio"] for m in self.waiting + self.held["o"] + self.held["f"] if m["id"] == mid)
 
     def candidates(self, topic):
         ws = [m for m in self.waiting if m["topic"] == topic]
@@ -57,7 +65,7 @@ class Fifo:
             blocked = False
             if m["ret"] is None:  # fresh messages keep their enqueue order ...
                 for o in ws:
-                    if o is m:
+                    if o is m or o["prio"] != m["prio"]:  # the order is defined within a priority only
                         continue
                     barrier = o["ret"] if o["ret"] is not None else o["orig"]
                     # ... and come after every message that (re-)entered the queue before them
@@ -106,6 +114,15 @@ def words(tier):
                     if tier == "quick" and k in (4, 5, 6, 7, 8):
                         continue
                     out.append(dict(kind=kind, prefix=pat, k=k, maxlen=sfx, mode=mode))
+        # mixed priorities: the order is only defined within a priority; Redis picks the priority it
+        # looks at first at random (harness-owned: each of the three orders for a whole execution)
+        for prio in ("p2", "p3", "p3r"):
+            for order in (REDIS_ORDERS if kind == "redis" else (None,)):
+                out.append(dict(kind=kind, prefix=None, k=0, maxlen=maxlen - 1, mode="single", prio=prio, order=order))
+                for pat in ("own", "alt"):
+                    for k in (2, 3, 5, 11, 13) if tier == "quick" else range(1, 14):
+                        out.append(dict(kind=kind, prefix=pat, k=k, maxlen=sfx - 1 if tier == "quick" else sfx,
+                                        mode="single", prio=prio, order=order))
     return out
 
 
@@ -131,11 +148,14 @@ def enum_words(maxlen, mode="dual"):
     return res
 
 
-def execute(kind, prefix, k, word, mode="dual"):
+def execute(kind, prefix, k, word, mode="dual", prio=None, order=None):
     x = Exec(kind)
     w = x.world
     loop = x.loop
     model = Fifo()
+    model.prio_of = PRIOS[prio]
+    if order is not None:
+        CLOCK.random_value = REDIS_ORDERS[order]
     viol = []
     trace = []
     try:
@@ -151,7 +171,7 @@ def execute(kind, prefix, k, word, mode="dual"):
 
         async def enq(topic):
             mid = model.enq(topic)
-            await w.broker.enqueue(w.key(mid, topic, "q", 9), mid, w.params())
+            await w.broker.enqueue(w.key(mid, topic, "q", model.prio(mid)), mid, w.params())
 
         async def prefill():
             for i in range(k):
@@ -170,7 +190,7 @@ def execute(kind, prefix, k, word, mode="dual"):
                 if not model.held["o"]:
                     break
                 mid = model.reject("o", "oldest" if letter == "ro" else "newest")
-                x.run(w.broker.reject(w.key(mid, "o", "q", 9)))
+                x.run(w.broker.reject(w.key(mid, "o", "q", model.prio(mid))))
                 trace.append(f"{letter}:{mid}")
                 continue
             topic = letter[1]
@@ -202,6 +222,9 @@ def execute(kind, prefix, k, word, mode="dual"):
                 break
             key, payload, params = fut.result()
             trace.append(f"{letter}:{key.id_}")
+            if any(m["id"] == key.id_ for m in model.waiting) and key.priority != model.prio(key.id_):
+                viol.append(("priority-changed", f"{key.id_} was enqueued with priority {model.prio(key.id_)}, delivered with {key.priority}"))
+                break
             if key.topic != topic:
                 viol.append(("foreign-delivered", f"the '{topic}' consumer received {key.id_} of topic {key.topic}"))
                 break
@@ -233,16 +256,17 @@ def run_job(job):
     acc = Acc()
     fam = job["fam"]
     for word in job["words"]:
-        handles, viol, trace = execute(fam["kind"], fam["prefix"], fam["k"], word, fam["mode"])
+        handles, viol, trace = execute(fam["kind"], fam["prefix"], fam["k"], word, fam["mode"], fam.get("prio"), fam.get("order"))
         acc.executions += 1
         acc.handles += handles
         acc.choice_points += len(word)
         acc.outcomes.add(digest([fam, trace]))
-        acc.phases[fam["mode"] + (":backlog>=10" if fam["k"] >= 10 else ":backlog<10")] += 1
+        acc.phases[fam["mode"] + (":backlog>=10" if fam["k"] >= 10 else ":backlog<10") + (":mixed-priorities" if fam.get("prio") else "")] += 1
         for sig, what in viol:
             acc.violations.append(dict(
                 signature=f"{fam['kind']} {sig} {fam['mode']}",
-                what=what + f" [backlog {fam['k']} ({fam['prefix']}), word {word}]",
+                what=what + f" [backlog {fam['k']} ({fam['prefix']}), word {word}"
+                            + (f", priorities {fam['prio']}, Redis order {fam.get('order')}" if fam.get("prio") else "") + "]",
                 job=dict(fam=fam, words=[word]),
                 detail=trace,
             ))
